@@ -88,6 +88,9 @@ def param_forms(seed):
     out.append(('rich_chp', lambda: A.CHPAsset('chp', [n1, n2, n3], conversion_factor_power_heat=0.5, max_share_heat=0.75, start_fuel=1., fuel_efficiency=0.5, consumption_if_on=0.25,
                                                start_ramp_lower_bounds_heat=[0., 0.5], start_ramp_upper_bounds_heat=[0.5, 1.], shutdown_ramp_lower_bounds_heat=[0.], shutdown_ramp_upper_bounds_heat=[1.],
                                                **chp)))
+    # a CHP asset declared without heat node by its constructor flag, with a fuel node (what Plant does internally, written by hand)
+    out.append(('chp_no_heat_flag', lambda: A.CHPAsset('chp', [n1, n3], _no_heat=True, price='p1', extra_costs=0.25, min_cap=1., max_cap=4., start_costs=1.5, min_runtime=2,
+                                                      time_already_off=1, start_fuel=1., fuel_efficiency=0.5, consumption_if_on=0.25)))
     out.append(('rich_chp_min_load', lambda: A.CHPAsset_with_min_load_costs(name='chp', nodes=[n1, n2], conversion_factor_power_heat=0.5, max_share_heat=0.75, min_load_threshhold=2., min_load_costs=0.75,
                                                                            **{k: v for k, v in chp.items() if not k.startswith(('start_ramp', 'shutdown_ramp', 'ramp_freq'))})))
     return out
